@@ -53,6 +53,10 @@ decreasing_by
     simp only [List.length_dropLast]
     omega
 
+/-- `to_ref(&self)`: the same elements seen through `Borrow::borrow` (`f`); the Rust doc comment
+"the order is assumed to be equivalent for borrowed content" is the `Borrow` contract. -/
+def toRef {β : Type} (f : α → β) (v : List α) : List β := v.map f
+
 /-- `slice::binary_search` on `v[lo..hi)`: `Ok(i)` ↦ `(true, i)`, `Err(i)` ↦ `(false, i)`.
 For a strictly increasing vector the result does not depend on the probing strategy. -/
 def binarySearch (v : Array α) (x : α) (lo hi : Nat) : Bool × Nat :=
